@@ -95,14 +95,13 @@ func c12Resolve(root *ggql.Root, k int, v string) map[string]interface{} {
 	return res
 }
 
-func c12Run(threads, perThread, kinds int) {
+func c12Run(threads, perThread int, kinds []int) {
 	d := c12Draw()
 	v := sym.String("v", 1)
 	n := threads * perThread
 	reqs := make([]int, n)
 	for k := range reqs {
-		nreq := kinds
-		reqs[k] = sym.Choice("request", nreq)
+		reqs[k] = kinds[sym.Choice("request", len(kinds))]
 	}
 	// alone, each on its own fresh (cold) root
 	want := make([]map[string]interface{}, n)
@@ -129,9 +128,9 @@ func c12Run(threads, perThread, kinds int) {
 	}
 }
 
-// C12_cold: two goroutines with one request each on a cold root.  quick: 4
-// request kinds (struct fields, both method fields, union list), at most 2
-// preemptions per schedule.  thorough: all 8 kinds with at most 2
+// C12_cold: two goroutines with one request each on a cold root.  quick: 5
+// request kinds (struct fields, both method fields, union list, interface
+// list), at most 2 preemptions per schedule.  thorough: all 8 kinds with at most 2
 // preemptions, and the 3 kinds that share the first-use windows of one type
 // with at most 4 (8 kinds with 3 did not finish in 40 minutes, unbounded not
 // in two hours).
@@ -139,14 +138,14 @@ func C12_cold() {
 	if sym.Thorough() {
 		if sym.Choice("depth or breadth", 2) == 0 {
 			sym.Preemptions(2)
-			c12Run(2, 1, len(c12Requests))
+			c12Run(2, 1, []int{0, 1, 2, 3, 4, 5, 6, 7})
 		} else {
 			sym.Preemptions(4)
-			c12Run(2, 1, 3)
+			c12Run(2, 1, []int{0, 1, 2})
 		}
 		return
 	}
-	c12Run(2, 1, 4)
+	c12Run(2, 1, []int{0, 1, 2, 3, 5})
 }
 
 // C12_three: three goroutines on a cold root resolving fields of one type
@@ -156,9 +155,9 @@ func C12_cold() {
 func C12_three() {
 	if sym.Thorough() {
 		sym.Preemptions(2)
-		c12Run(3, 1, 3)
+		c12Run(3, 1, []int{0, 1, 2})
 		return
 	}
 	sym.Preemptions(1)
-	c12Run(3, 1, 2)
+	c12Run(3, 1, []int{0, 1})
 }
